@@ -202,9 +202,10 @@ func refMurmur(seed uint32, data []byte) uint32 {
 }
 
 type refFilter struct {
-	bits  []byte
-	k     uint32
-	tweak uint32
+	bits    []byte
+	k       uint32
+	tweak   uint32
+	txTypes []byte
 }
 
 func (r *refFilter) add(d []byte) {
@@ -237,12 +238,32 @@ func outpointBytes(txid hash, index uint16) []byte {
 
 type txModel struct {
 	hash    hash
+	txType  byte
 	outputs [][21]byte
 	inputs  [][]byte // outpoint bytes
 }
 
 // matchTx is BIP37 matching with "update all" as implemented for normal filters.
+//
+// A filter with tweak 0xffffffff is a side-chain SPV filter: it matches listed
+// transaction types and, when the bit array is non-empty, watched output
+// program hashes; it is never updated.
 func (r *refFilter) matchTx(tx *txModel) bool {
+	if r.tweak == 0xffffffff {
+		for _, t := range r.txTypes {
+			if t == tx.txType {
+				return true
+			}
+		}
+		if len(r.bits) != 0 {
+			for _, o := range tx.outputs {
+				if r.matches(o[:]) {
+					return true
+				}
+			}
+		}
+		return false
+	}
 	matched := r.matches(tx.hash[:])
 	for i, o := range tx.outputs {
 		if r.matches(o[:]) {
